@@ -413,7 +413,9 @@ class AssociationRequester(Association):
         accepted = (ctx for ctx in response.variable_items[1:-1] if ctx.result_reason == 0)
         for ctx in accepted:
             pc_id = ctx.context_id
-            sop_class = self.context_def_list[ctx.context_id].sop_class
+            if pc_id not in self.context_def_list:
+                continue  # the peer answered a context that was never proposed: nothing to use
+            sop_class = self.context_def_list[pc_id].sop_class
             ts_uid = uid.UID(ctx.ts_sub_item.name)
             self.sop_classes_as_scu[sop_class] = (pc_id, ts_uid)
             self.accepted_contexts[pc_id] = PContextDef(pc_id, sop_class, ts_uid)
